@@ -556,12 +556,59 @@ func c03CounterWalk(c *Ctx) {
 	}
 }
 
+// c03RelatedCounters / c04RelatedSteps: validation with one key and parameter set at bit-related counters / time steps
+// (relatedCounters); at each the own code, the edges of the window and the first counters outside it are submitted.
+func c03RelatedCounters(c *Ctx) {
+	rng := c.RNG.Fork(3140)
+	for w := 0; w < c.N(16, 200); w++ {
+		base := gen.Pick(rng, []uint64{uint64(1000 + rng.Intn(1000)), uint64(1000 + rng.Intn(1<<30)), 1000 + rng.U64()%(1<<40), rng.U64()})
+		key := rng.Bytes(20)
+		d, a := 6+rng.Intn(5), rng.Intn(3)
+		skew := uint64(rng.Intn(4))
+		for _, ctr := range relatedCounters(rng, base, 1<<64-1) {
+			if ctr < 20 || ctr > 1<<64-20 {
+				continue // the ends of the counter range have their own cases
+			}
+			subs := []string{ref.HOTP(key, ctr, d, a), ref.HOTP(key, ctr-skew, d, a), ref.HOTP(key, ctr+skew, d, a), ref.HOTP(key, ctr+skew+1, d, a), ref.HOTP(key, ctr-skew-1, d, a)}
+			judgeVHOTP(c, vhotpCase{KeyHex: hexs(key), Secret: ref.Base32EncodeNoPad(key), Counter: ctr, Skew: skew, Digits: uint8(d), Algo: uint8(a), Submitted: hexAll(subs),
+				Notes: []string{"own counter (bit-related history)", "lowest counter of the window (bit-related history)", "highest counter of the window (bit-related history)", "first counter above the window (bit-related history)", "first counter below the window (bit-related history)"}})
+			c.R.Count("bit_related_counter_history_calls", 1)
+		}
+	}
+}
+
+func c04RelatedSteps(c *Ctx) {
+	rng := c.RNG.Fork(4040)
+	for w := 0; w < c.N(16, 200); w++ {
+		p := gen.Pick(rng, []uint64{0, 1, 1, 30, 30, 60})
+		pp := p
+		if pp == 0 {
+			pp = 30
+		}
+		limit := (uint64(1)<<62-pp)/pp - 20
+		base := gen.Pick(rng, []uint64{uint64(1000 + rng.Intn(1000)), uint64(1000 + rng.Intn(1<<30)), 1000 + rng.U64()%(1<<40), 1000 + rng.U64()%(limit-1000)})
+		key := rng.Bytes(20)
+		d, a := 6+rng.Intn(5), rng.Intn(3)
+		skew := uint64(rng.Intn(4))
+		for _, step := range relatedCounters(rng, base, limit) {
+			if step < 20 {
+				continue
+			}
+			subs := []string{ref.HOTP(key, step, d, a), ref.HOTP(key, step-skew, d, a), ref.HOTP(key, step+skew, d, a), ref.HOTP(key, step+skew+1, d, a), ref.HOTP(key, step-skew-1, d, a)}
+			judgeVTOTP(c, vtotpCase{KeyHex: hexs(key), Secret: ref.Base32EncodeNoPad(key), At: gen.InstantSpec{Unix: int64(step*pp) + int64(rng.Intn(int(pp))), Zone: 0}, Period: p, Skew: skew, Digits: uint8(d), Algo: uint8(a),
+				Submitted: hexAll(subs), Notes: []string{"own step (bit-related history)", "lowest step of the window (bit-related history)", "highest step of the window (bit-related history)", "first step above the window (bit-related history)", "first step below the window (bit-related history)"}})
+			c.R.Count("bit_related_step_history_calls", 1)
+		}
+	}
+}
+
 func runC04(c *Ctx) {
 	bt := newBatcher(c, judgeVTOTP, 97)
 	c04Cases(c, bt.add)
 	bt.flush()
 	cases := bt.keep
 	c04StepWalk(c)
+	c04RelatedSteps(c)
 
 	// bounded work. (i) functional, affordable skews: a validator that does not refuse answers (true, nil).
 	small := refusedSkewCases(c, []uint64{11, 12, 100, 10000})
@@ -633,6 +680,7 @@ func init() {
 			b.flush()
 			c03NeighbourHistory(c)
 			c03CounterWalk(c)
+			c03RelatedCounters(c)
 		},
 		Replay: func(c *Ctx, kind string, raw json.RawMessage) error {
 			return replayAs(raw, func(k vhotpCase) { judgeVHOTP(c, k) })
